@@ -160,7 +160,7 @@ func runC14(p *core.Prog, r *core.Report) {
 	r4 := r.Rule("C14.R4", "Shard.setMode applies the mode component by component and stops at the first failure: the next component is called, and the shard's mode recorded, only after the previous call returned nil; towards READ_WRITE the metabase goes first (the order is changed only when leaving READ_WRITE)", 4)
 	shardSwitchStopsAtFirstFailure(p, r, r4)
 	// ---- R5 the configured mode reaches the components
-	r5 := r.Rule("C14.R5", "Shard.Init (the tabled lifecycle exception: components are opened for writing) succeeds only with the components in the shard's configured mode: the mode is READ_WRITE, or SetMode(mode) returned nil; and a shard configured READ_ONLY switches its write-cache to read-only right after initialising it, before the (possibly long) metabase initialisation", 2)
+	r5 := r.Rule("C14.R5", "Shard.Init (the tabled lifecycle exception: components are opened for writing) succeeds only with the components in the shard's configured mode: the mode is READ_WRITE, or SetMode(mode) returned nil (directly or inside a helper given that mode) and, for a read-only mode, the blob storage was reopened for it (setModeStorage skips a shard that already reports the mode); and a shard configured READ_ONLY switches its write-cache to read-only right after initialising it, before the (possibly long) metabase initialisation", 2)
 	configuredModeApplied(p, r, r5)
 	r.Explain += " (R5) the mode a shard is configured with is applied to its components at start: Shard.Init reports success only when the mode is READ_WRITE or SetMode(mode) returned nil, and for READ_ONLY the write-cache is switched right after its own initialisation (its flush workers otherwise move cached objects into blobstor while the shard already answers 'read-only')."
 	r.Explain += " (R4) Shard.setMode calls the components' mode switches one after another and stops at the first error, and the stored order puts the metabase first unless the switch leaves READ_WRITE: when the metabase cannot be reopened for writing, blobstor and the write-cache are not made writable behind a shard that keeps reporting read-only (a writable write-cache flushes on its own, without any request)."
@@ -333,15 +333,60 @@ func configuredModeApplied(p *core.Prog, r *core.Report, h *core.RuleH) {
 			return isC && c == k && isModeVal(bo.X)
 		}
 	}
-	guards := []core.Guard{
+	// a helper that applies the mode it is given: succeeds only after setMode(that mode) did, and, when that mode is a
+	// read-only one, after the blob storage was reopened for it (setMode itself skips the storage of a shard
+	// that already reports the mode -- which the configured one always is)
+	reopener := storageReopener(p)
+	storageGuards := func(isM func(*ssa.Function, ssa.Value) bool) []core.Guard {
+		return []core.Guard{
+			{Name: "mode-not-read-only", Match: func(s core.Site) bool {
+				return strings.HasSuffix(s.Name, "mode.Mode).ReadOnly") && isM(s.Call.Parent(), s.Call.Common().Args[0])
+			}, Comps: []core.Comp{{Result: -1, Kind: core.IsFalse}}},
+			{Name: "storage-reopened", Match: func(s core.Site) bool {
+				return reopener != nil && s.Name == core.FuncName(reopener) && s.Name != shardT+".setModeStorage" && len(s.Call.Common().Args) == 2 && isM(s.Call.Parent(), s.Call.Common().Args[1])
+			}, Comps: []core.Comp{{Result: -1, Kind: core.ErrNil}}},
+		}
+	}
+	isParam1 := func(fn *ssa.Function, v ssa.Value) bool { return core.ParamIndex(fn, v) == 1 }
+	isConfigured := func(_ *ssa.Function, v ssa.Value) bool { return isModeVal(v) }
+	applies := map[string]bool{}
+	appliesWithStorage := map[string]bool{}
+	for _, f := range p.FuncsIn("pkg/local_object_storage/shard") {
+		if len(f.Params) != 2 || !strings.HasPrefix(core.FuncName(f), shardT+".") || core.FuncName(f) == shardT+".SetMode" || core.FuncName(f) == shardT+".setMode" {
+			continue
+		}
+		if !strings.HasSuffix(f.Params[1].Type().String(), "mode.Mode") || f.Signature.Results().Len() != 1 {
+			continue
+		}
+		inner := core.Guard{Name: "mode-applied", Match: func(s core.Site) bool {
+			return (s.Name == shardT+".SetMode" || s.Name == shardT+".setMode") && len(s.Call.Common().Args) == 2 && isParam1(s.Call.Parent(), s.Call.Common().Args[1])
+		}, Comps: []core.Comp{{Result: -1, Kind: core.ErrNil}}}
+		if len(core.CallSites([]*ssa.Function{f}, inner.Match)) == 0 {
+			continue
+		}
+		if core.SuccessHolds(p, f, core.SuccessRule{ResultIdx: -1, Guards: []core.Guard{inner}}) {
+			applies[core.FuncName(f)] = true
+			if core.SuccessHolds(p, f, core.SuccessRule{ResultIdx: -1, Guards: storageGuards(isParam1),
+				Derived: []core.Derived{{Name: "storage", Alts: [][]string{{"mode-not-read-only"}, {"storage-reopened"}}}}, Need: []string{"storage"}}) {
+				appliesWithStorage[core.FuncName(f)] = true
+			}
+		}
+	}
+	guards := append([]core.Guard{
 		{Name: "configured-read-write(ne-form)", Comps: []core.Comp{{Result: -1, Kind: core.IsFalse}}, Value: cmpMode(rw, token.NEQ)},
 		{Name: "configured-read-write(eq-form)", Comps: []core.Comp{{Result: -1, Kind: core.IsTrue}}, Value: cmpMode(rw, token.EQL)},
 		{Name: "mode-applied", Match: func(s core.Site) bool {
-			return (s.Name == shardT+".SetMode" || s.Name == shardT+".setMode") && len(s.Call.Common().Args) == 2 && isModeVal(s.Call.Common().Args[1])
+			return (s.Name == shardT+".SetMode" || s.Name == shardT+".setMode" || applies[s.Name]) && len(s.Call.Common().Args) == 2 && isModeVal(s.Call.Common().Args[1])
 		}, Comps: []core.Comp{{Result: -1, Kind: core.ErrNil}}},
-	}
+		{Name: "mode-applied-with-storage", Match: func(s core.Site) bool {
+			return appliesWithStorage[s.Name] && len(s.Call.Common().Args) == 2 && isModeVal(s.Call.Common().Args[1])
+		}, Comps: []core.Comp{{Result: -1, Kind: core.ErrNil}}},
+	}, storageGuards(isConfigured)...)
 	core.CheckSuccessFn(p, h, fn, core.SuccessRule{ResultIdx: -1, MinReturns: 1, Guards: guards,
-		Derived: []core.Derived{{Name: "components-in-configured-mode", Alts: [][]string{{"configured-read-write(ne-form)"}, {"configured-read-write(eq-form)"}, {"mode-applied"}}}}, Need: []string{"components-in-configured-mode"}})
+		Derived: []core.Derived{
+			{Name: "components-in-configured-mode", Alts: [][]string{{"configured-read-write(ne-form)"}, {"configured-read-write(eq-form)"}, {"mode-applied"}}},
+			{Name: "storage-in-configured-mode", Alts: [][]string{{"configured-read-write(ne-form)"}, {"configured-read-write(eq-form)"}, {"mode-not-read-only"}, {"storage-reopened"}, {"mode-applied-with-storage"}}},
+		}, Need: []string{"components-in-configured-mode", "storage-in-configured-mode"}})
 	// the cache stops before the metabase is initialised
 	wcInit := core.CallSites([]*ssa.Function{fn}, func(s core.Site) bool { return strings.HasSuffix(s.Name, "writecache.Cache).Init") })
 	mbInit := core.CallSites([]*ssa.Function{fn}, func(s core.Site) bool { return s.Name == "(*pkg/local_object_storage/metabase.DB).Init" })
